@@ -629,10 +629,32 @@ func (h *harness) oracle2(pr params, s sdf.SDF2, kids []interface{}, desc, coq, 
 	case "fUnion2":
 		for _, p := range pts {
 			var vals []float64
+			pruneOK := true // the hypotheses of C02_union2_sem / C16_union_prune_eq at this point
 			for _, k := range kids {
-				vals = append(vals, ev2(k, p))
+				x := ev2(k, p)
+				vals = append(vals, x)
+				iv := k.(*shapes.N2).Go.BoundingBox().MinMaxDist2(p)
+				lower := (x > 0 || iv[0] == 0) && (x < 0 || iv[0] <= x*x*(1+1e-9)) // value >= distance to the operand's box
+				upper := x <= 0 || x*x <= iv[1]*(1+1e-9)                           // a point of the solid in the box, 1-Lipschitz
+				pruneOK = pruneOK && lower && upper
 			}
-			h.checkMinFold(v, p, pr, s.Evaluate(p), vals, false)
+			got := s.Evaluate(p)
+			if pr.blend == "MinDef" && !pruneOK {
+				// an operand breaks the contract the bounding-box pruning relies on (e.g. its solid is empty):
+				// outside the claimed class only the weaker facts are checked - the result is one of the
+				// operand values, not below the minimum, and negative iff some operand is negative
+				h.hist["fUnion2/operand-outside-pruning-contract"]++
+				m, member := math.Inf(1), false
+				for _, x := range vals {
+					m = math.Min(m, x)
+					member = member || sameBits(x, got)
+				}
+				if !member || got < m || (m < 0) != (got < 0) {
+					v.at(p, fmt.Sprintf("Union2D: Evaluate = %g with operand values %v", got, vals))
+				}
+				continue
+			}
+			h.checkMinFold(v, p, pr, got, vals, false)
 		}
 	case "fDifference2":
 		for _, p := range pts {
